@@ -10,6 +10,30 @@ CHECKS = {
                 technique="property-based testing: grammar-constructed derive requests compiled by real rustc (validity oracle), proptest choice streams with shrinking",
                 text="Generated-input search over the documented request grammar; each request must be accepted in-process and its expansion must compile without errors or warnings under rustc. Finds counterexamples, never proves absence.",
                 note="rustc 1.95/x86-64 is the compile oracle; generator only emits documented forms with well-typed user parts; most lints are silent inside macro output"),
+    "C12": dict(engine="P", design="5/C12",
+                technique="property-based testing: generated generics x bound modes, syntactic model oracle on every generated impl header (in-process expansion)",
+                text="For generated generic parameter lists, where-clauses and bound spellings, every impl header of the expansion is compared with a reference model (parameters minus defaults, self type, user predicates plus exactly the additions the mode prescribes).",
+                note="token text of the in-process Ok path is faithful; predicates compared as multisets with canonical trait paths; automatic mode is only checked for header and user predicates (C11 owns the rest)"),
+    "C13": dict(engine="P+R", design="5/C13",
+                technique="property-based testing with fault injection: 14 fault operators on valid generated requests, oracle = expansion must be Err; panics confirmed through rustc",
+                text="Each case is a valid request (accepted in the same run) plus exactly one invalid construct from the statement at a generated position; it must be refused. A sample of refusals and every in-process panic is re-checked through the shipping macro under rustc.",
+                note="operators only build constructs the statement lists; a request that is refused for a second reason would mask a missing check, so operators keep the fault single"),
+    "C14": dict(engine="P", design="5/C14",
+                technique="property-based metamorphic testing: two independent spelling assignments of one generated request must expand to the same multiset of impl items",
+                text="Metamorphic relation over all documented spellings, attribute layouts and trait/parameter orders; outputs compared token-for-token as multisets of items.",
+                note="Into-impl order is C16's subject and is factored out by the multiset comparison"),
+    "C15": dict(engine="P", design="5/C15",
+                technique="property-based metamorphic testing: dropping or re-configuring all other traits must leave one trait's impl items token-identical",
+                text="For a generated request and a chosen trait t, the impl items of t are compared between the full request and one where every other trait (except the documented partner) is dropped or re-configured.",
+                note="documented couplings Copy/Clone, Eq/PartialEq, Ord/PartialOrd are kept together"),
+    "C16": dict(engine="P", design="5/C16",
+                technique="property-based testing: repeated expansion (8x in-process, 6-32 fresh processes) of generated multi-Into and double-fault requests, outputs must be identical",
+                text="Detects nondeterministic output or diagnostics probabilistically: every HashMap in the subject gets a fresh RandomState per expansion and per process.",
+                note="a nondeterministic order over k items survives with probability (1/k!)^7 per case"),
+    "C17": dict(engine="P+R", design="5/C17",
+                technique="property-based fuzzing: token-level mutants of valid requests under catch_unwind, every panic re-run through rustc; nesting ladder in child processes",
+                text="Tens of thousands of structure-aware token mutants per run must yield Ok or a renderable Err; candidates are confirmed with the shipping macro. A watchdog maps hangs to exit 2.",
+                note="fallback-printer-only panics are not reported; depth beyond 64 is only sampled by the ladder (open finding F4b)"),
 }
 ALL = ["C%02d" % i for i in range(1, 21)]
 
